@@ -2,6 +2,7 @@ package checks
 
 import (
 	"fmt"
+	"strings"
 
 	"verif/drv"
 	"verif/eng"
@@ -82,7 +83,7 @@ func bigBatchInvalid(run *ev.Run) {
 	for _, b := range []string{drv.BBolt, drv.Badger} {
 		in := drv.MustOpen(b)
 		for _, idx := range []bool{false, true} {
-			for _, n := range []int{150, 600, 1300, 2500} {
+			for _, n := range []int{150, 600, 1300, 2500, -2600} {
 				for _, where := range []string{"last", "middle"} {
 					for _, kind := range []string{"dup-in-batch", "dup-stored", "malformed"} {
 						in.Fresh(nil)
@@ -94,7 +95,16 @@ func bigBatchInvalid(run *ev.Run) {
 						for _, o := range setup {
 							_, model, _ = drv.Step(in, model, o)
 						}
+						pad := 0
+						if n < 0 { // larger than badger's per-transaction limit in this configuration: refused or accepted, never partially applied
+							n, pad = -n, 700
+						}
 						docs := manyDocs(n)
+						for _, d := range docs {
+							if pad > 0 {
+								d["pad"] = strings.Repeat("p", pad)
+							}
+						}
 						pos := n - 1
 						if where == "middle" {
 							pos = n / 2
@@ -113,6 +123,9 @@ func bigBatchInvalid(run *ev.Run) {
 						name := fmt.Sprintf("%s|%s|indexed=%v|%s", b, kind, idx, where)
 						w := map[string]interface{}{"engine": "bigbatch", "backend": b, "batch": n, "offending": kind, "position": pos, "indexed": idx}
 						for _, f := range fs {
+							if pad > 0 && f.Tag == "err" {
+								continue // which error an oversized batch reports (store limit or the offending document) is not specified
+							}
 							run.Violation("big-batch-"+f.Tag+"|"+name, fmt.Sprintf("[%s] batch of %d documents, %s at position %d: %s", b, n, kind, pos, f.Msg), w)
 						}
 						if res.Panic == nil && res.Leak == "" && res.Err != nil && drv.CanonState(in.Dump()) != before {
